@@ -11,6 +11,12 @@ pub enum LTy {
     Int(String),
     Bool,
     Bytes,
+    /// a Rust `String` / `&str`: its UTF-8 bytes (slicing checks character boundaries)
+    Str,
+    /// a `Path` / `PathBuf` / `OsStr` on Unix: the bytes of the `OsStr`
+    Path,
+    /// `Cow<'_, T>` (auto-dereferenced by a method call: `Rs.Cow.get`)
+    Cow(Box<LTy>),
     Unit,
     /// a translated structure / enum (`Gen.Name args`)
     Adt(String, Vec<LTy>),
@@ -29,7 +35,8 @@ impl LTy {
         match self {
             LTy::Int(s) => s.clone(),
             LTy::Bool => "Bool".into(),
-            LTy::Bytes => "Bytes".into(),
+            LTy::Bytes | LTy::Str | LTy::Path => "Bytes".into(),
+            LTy::Cow(t) => format!("(Rs.Cow {})", t.lean()),
             LTy::Unit => "Unit".into(),
             LTy::Adt(n, a) if a.is_empty() => format!("Gen.{n}"),
             LTy::Adt(n, a) => format!("(Gen.{n} {})", a.iter().map(|x| x.lean()).collect::<Vec<_>>().join(" ")),
@@ -127,6 +134,7 @@ fn ext_method(ty: &str, m: &str) -> Option<(&'static str, ExtKind, LTy)> {
         ("Rs.Hmac", "finalize_reset") => ("Rs.Hmac.finalize_reset", ExtKind::MutRet, LTy::Bytes),
         ("Rs.AesDyn.Cipher", "crypt_in_place") => ("Rs.AesDyn.crypt_in_place", ExtKind::MutBuf, LTy::Unit),
         ("Rs.AesBlock", "encrypt_block") => ("Rs.AesBlock.encrypt_block", ExtKind::RefBuf, LTy::Unit),
+        ("Rs.Component", "as_os_str") => ("Rs.Component.as_os_str", ExtKind::Pure, LTy::Path),
         _ => return None,
     })
 }
@@ -207,7 +215,8 @@ pub fn lty(t: &Type, tparams: &[String], self_ty: Option<&LTy>, reg: &Registry, 
             }
             match n.as_str() {
                 // strings are their UTF-8 bytes, Unix paths the bytes of their `OsStr`
-                "String" | "str" | "Path" | "PathBuf" if args.is_empty() => LTy::Bytes,
+                "String" | "str" if args.is_empty() => LTy::Str,
+                "Path" | "PathBuf" | "OsStr" if args.is_empty() => LTy::Path,
                 "Box" if args.len() == 1 => {
                     if let Type::TraitObject(to) = args[0] {
                         for b in &to.bounds {
@@ -257,6 +266,7 @@ fn impl_tparams(g: &Generics) -> R<Vec<(String, Vec<String>)>> {
                 }
                 out.push((tp.ident.to_string(), bounds));
             }
+            GenericParam::Lifetime(_) => {}
             _ => return Err("generic parameter".into()),
         }
     }
@@ -429,6 +439,12 @@ pub fn collect(files: &[(String, Vec<(String, String)>)], asts: &BTreeMap<String
                                             if cfg_on(&f.attrs) {
                                                 fields.push((f.ident.as_ref().unwrap().to_string(), lty(&f.ty, &params, None, reg, &lreg)));
                                             }
+                                        }
+                                    }
+                                    // a tuple structure: the fields `.0`, `.1`, … are `_0`, `_1`, …
+                                    if let Fields::Unnamed(uf) = &s.fields {
+                                        for (i, f) in uf.unnamed.iter().enumerate() {
+                                            fields.push((format!("_{i}"), lty(&f.ty, &params, None, reg, &lreg)));
                                         }
                                     }
                                     lreg.structs.insert(n.clone(), LStruct { params, fields });
